@@ -40,6 +40,7 @@ For each change N in 1..4 create the directory /tmp/mut/NAME-out/N/ containing:
   - demo_test.go : a Go test file (package <pkg>_test) that can be copied into the relevant package directory of the repository and run with `go test`; it FAILS (test failure / panic / hang detected by its own timeout / race detector report with `go test -race`) with the change applied and PASSES on the unchanged worktree. If it needs many repetitions, a specific GOMAXPROCS, `-race` (say so in the README with the literal flag -race), or a fault-injecting io.RuneScanner / io.Reader / io.Writer, build that into the demonstration.
   - README.md : which clause of the property it breaks, what it needs in order to manifest, and the exact commands you ran with their observed results for both trees (changed: fails; unchanged: passes; existing suite: passes with the change).
 After finishing each change, restore the worktree (`git checkout -- .`) before starting the next; leave the worktree clean at the end.
+Resource rules: the machine is shared. Run at most two `go test`/`go build` processes at a time, always give `go test` an explicit `-timeout` (120s or less unless a demonstration needs more), do not run automated mutation sweeps or fuzzing campaigns, and before you finish make sure none of your test binaries is still running (`ps aux | grep /tmp/go-build` — kill only your own, by PID, never with a machine-wide pattern).
 Verify everything yourself by actually running the commands. Prefer subtle changes over blatant ones. Do not spend time on exhaustive enumeration tools; four well-checked changes are the goal. Report back a short summary (one paragraph per change).
 '''
 for pid in ['C01','C06','C07','C08','C10','C18','C20']:
